@@ -4,6 +4,7 @@ import json, sys
 pid, wt = sys.argv[1], sys.argv[2]
 n = sys.argv[3] if len(sys.argv) > 3 else "2"
 hard = len(sys.argv) > 4
+hard2 = len(sys.argv) > 4 and sys.argv[4] == "hard2"
 HARD = """
 This is a SECOND round: the obvious places have been tried already.  Stay away from the main arithmetic of the most
 common instructions.  Prefer rarely exercised paths: other architecture versions (arch_version 4, 5, 7 in the
@@ -13,6 +14,21 @@ addresses and values near 0 and 2^32, Thumb IT-block interactions, register 13/1
 from one instruction or one processor instance to the next, operands that are equal registers (Rd == Rn == Rm), and
 conditions that only hold for ONE specific field value.  Do not use `git stash` (worktrees share it).
 """ if hard else ""
+if hard2:
+    HARD += """
+This is a LATER round still: single-site slips in common paths have been tried many times.  Aim for one of these shapes:
+ (a) a multi-step HISTORY: something left behind by one instruction / exception entry / exception return / processor
+     instance and consumed by a later one (a stale cached value, a flag not cleared, a banked copy not refreshed);
+ (b) TWO COOPERATING SITES, each of which looks fine alone (e.g. a helper that changes its contract slightly plus one
+     caller that relied on the old contract);
+ (c) ONE specific value out of a large range: one register number, one rotation, one immediate, one bit position, one
+     mode number, one region/descriptor index, one address alignment, one list shape;
+ (d) rarely used encodings (T2/T3/T4 or A2 variants, unprivileged / exclusive / dual / signed forms, SRS / RFE, CPS,
+     banked MRS/MSR, SMC / ERET, coprocessor, saturating and packed-SIMD variants that have many siblings);
+ (e) rare configurations (arch_version 4/5/6, no security extensions, virtualization, LPAE, VMSA instead of PMSA,
+     big-endian, high vectors, NMFI).
+Make each of your changes a different shape from this list.
+"""
 for l in open('/verif/properties.jsonl'):
     p = json.loads(l)
     if p['id'] == pid:
